@@ -19,3 +19,31 @@ def emit(A, nlist, strlit, strlist):
     A('(* falcon/request_helpers.py: _COOKIE_NAME_RESERVED_CHARS over latin-1 *)')
     rs = request_helpers._COOKIE_NAME_RESERVED_CHARS
     A('Definition cookie_name_reserved : list N := %s.' % nlist(c for c in range(256) if rs.search(chr(c))))
+    _emit_dates(A, nlist, strlit, strlist)
+
+
+def _emit_dates(A, nlist, strlit, strlist):
+    """names and platform facts used by strftime / strptime for HTTP dates (current locale)"""
+    import _strptime
+    import datetime
+    A('(* HTTP dates: names as strftime renders them (2024-01-01 is a Monday), in calendar order; the *)')
+    A('(* alternation order of strptime\'s regex for %a %A %b %Z (lower-case); platform padding of %Y *)')
+    days = [datetime.date(2024, 1, 1 + i) for i in range(7)]
+    A('Definition date_a_weekday : list (list N) := %s.' % strlist(d.strftime('%a') for d in days))
+    A('Definition date_f_weekday : list (list N) := %s.' % strlist(d.strftime('%A') for d in days))
+    A('Definition date_a_month : list (list N) := %s.'
+      % strlist(datetime.date(2024, m, 1).strftime('%b') for m in range(1, 13)))
+    t = _strptime.TimeRE()
+
+    def alts(key):
+        pat = t[key]
+        inner = pat[pat.index('>') + 1:-1]
+        names = [x.replace('\\', '') for x in inner.split('|')] if inner else []
+        # equal-length alternatives come in set order: fix it (none can be a prefix of another)
+        return sorted(names, key=lambda n: (-len(n), n))
+    A('Definition strp_a_order : list (list N) := %s.' % strlist(alts('a')))
+    A('Definition strp_A_order : list (list N) := %s.' % strlist(alts('A')))
+    A('Definition strp_b_order : list (list N) := %s.' % strlist(alts('b')))
+    A('Definition strp_Z_order : list (list N) := %s.' % strlist(alts('Z')))
+    A('Definition strftime_Y_padded : bool := %s.'
+      % ('true' if datetime.datetime(1, 1, 1).strftime('%Y') == '0001' else 'false'))
